@@ -163,6 +163,9 @@ UNIT = AggV((), "()")
 ENV_PASS = object()
 # constants of crates outside /repo that the generated code refers to (molecule 0.9: `pub const NUMBER_SIZE: usize = 4`)
 KNOWN_CONSTS = {"molecule::NUMBER_SIZE": (4, "usize")}
+for _ty, _bits in (("u8", 8), ("u16", 16), ("u32", 32), ("u64", 64), ("usize", 64), ("u128", 128)):
+    KNOWN_CONSTS[f"core::num::<impl {_ty}>::MAX"] = ((1 << _bits) - 1, _ty)
+    KNOWN_CONSTS[f"core::num::<impl {_ty}>::MIN"] = (0, _ty)
 
 ENUMS = {
     "Option": ["None", "Some"],
